@@ -61,6 +61,115 @@ def wire_family(ctx, prop, scenarios, rule, nontrivial=None, observe_props=None)
 def delivered_something(s, es):
     return any(e['event'] == 'Deliver' for e in es)
 
+UNIT_US = 10000   # one abstract time unit of the engine specs = 10 ms of virtual time
+
+def engine_outcomes(ctx, module, cfg, engine, timeout=1500, simulate=None):
+    """Runs the engine design spec (all invariants) and collects, per environment script, the set of outputs the
+    design allows (printed at every terminal state)."""
+    import re
+    r = vt.run_tlc(module, cfg=cfg, env={'VT_EMIT': '1'}, timeout=timeout, simulate=simulate)
+    ctx.design.append({'module': module, 'cfg': cfg, 'generated': r.generated, 'distinct': r.distinct, 'depth': r.depth,
+                       'wall_s': round(r.wall, 1), 'ok': r.ok(), 'violated': r.violated})
+    ctx.states += r.distinct; ctx.transitions += r.generated
+    if r.timeout:
+        raise Infra('TLC %s/%s timed out' % (module, cfg))
+    if not r.ok():
+        raise Infra('engine design check %s/%s failed:\n%s' % (module, cfg, vt.filtered(r.out, 50)))
+    allowed = {}
+    for line in r.out.splitlines():
+        if not line.startswith('<<"OUT", '):
+            continue
+        m = re.match(r'^<<"OUT", "(.*)", "(.*)">>$', line)
+        if not m:
+            raise Infra('unparseable OUT line: ' + line[:200])
+        un = lambda x: json.loads(x.encode().decode('unicode_escape'))
+        scr, out = un(m.group(1)), un(m.group(2))
+        key = json.dumps(scr, sort_keys=True)
+        allowed.setdefault(key, (scr, []))[1].append(out)
+    return allowed
+
+def _norm_spec_out(par, out):
+    if not out['ok']:
+        return ('err', out['err'] == 'canceled')
+    hops = []
+    for k, h in enumerate(out['hops']):
+        if h.get('k') == 'hop':
+            hops.append((par['min'] + k, h['ip'], h['dest'], h['rtt'] * UNIT_US))
+        else:
+            hops.append((par['min'] + k, None, False, 0))
+    return ('ok', tuple(hops))
+
+def _norm_real_out(ret):
+    if not ret['ok']:
+        return ('err', bool(ret['err']['canceled']))
+    hops = []
+    for h in ret['hops']:
+        if h['addr']:
+            a = h['addr'].split('.')
+            hops.append((h['ttl'], int(a[2]) * 256 + int(a[3]), h['dest'], h['rtt_us']))
+        else:
+            hops.append((h['ttl'], None, False, 0))
+    return ('ok', tuple(hops))
+
+def engine_family(ctx, prop, module, cfg, engine, obs_props, simulate=None):
+    """TLC behaviours of the engine spec replayed into the real engine: for every environment script the real
+    output must be one of the outputs the design allows (refinement at the observable level), and the L1
+    formulas must hold on the recorded trace."""
+    allowed = engine_outcomes(ctx, module, cfg, engine, simulate=simulate)
+    scen = []
+    for i, (key, (scr, outs)) in enumerate(sorted(allowed.items())):
+        replies = []
+        tt = sorted(int(t) for t in scr['script'].keys()) if isinstance(scr['script'], dict) else list(range(scr['min'], scr['min'] + len(scr['script'])))
+        get = (lambda t: scr['script'][str(t)]) if isinstance(scr['script'], dict) else (lambda t: scr['script'][t - scr['min']])
+        sendfail = 0
+        for t in tt:
+            for r in get(t):
+                if r['err'] == 'sendfail':
+                    sendfail = t
+                    continue
+                replies.append({'on_ttl': t, 'ttl': r['ttl'], 'dest': r['dest'], 'delay_us': r['delay'] * UNIT_US, 'ip': r['ip'], 'err': r['err']})
+        s = {'id': '%s/%s/%d' % (prop, engine, i), 'kind': 'engine', 'min': scr['min'], 'max': scr['max'],
+             'timeout_ms': scr['timeout'] * UNIT_US // 1000, 'poll_ms': scr['poll'] * UNIT_US // 1000, 'delay_ms': scr['delay'] * UNIT_US // 1000,
+             'cancel_us': scr['cancel'] * UNIT_US if scr['cancel'] >= 0 else 0,
+             'engine': {'engine': engine, 'replies': replies, 'send_fail_at': sendfail},
+             'label': '%s/script-%d' % (engine, i), '_key': key}
+        if scr['cancel'] == 0:
+            s['cancel_us'] = 1   # cancellation at the very start (0 means "never" in the scenario format)
+        scen.append(s)
+    ctx.extra['rule'] = ('every environment script of %s/%s (replies per probe: none / own TTL / duplicate / destination / destination replacing a '
+                         'router reply / late / retryable junk / faults) is explored exhaustively by TLC with all design invariants and then executed on the '
+                         'real common.Traceroute%s with a scripted driver under the virtual clock; the real output must be in the set of outputs the '
+                         'design allows for that script; non-trivial = at least one reply was accepted; distinct by script' % (module, cfg, engine.capitalize()))
+    if ctx.bin is None:
+        vt.build_harness(ctx)
+    traces = vt.run_harness(ctx, [{k: v for k, v in s.items() if k != '_key'} for s in scen], prop + '-' + engine)
+    evs = vt.read_traces(traces)
+    by_id = {s['id']: s for s in scen}
+    ctx.evaluations += len(scen)
+    drift = ctx.extra.setdefault('drift_scenarios', [])
+    for s in scen:
+        es = evs.get(s['id'], [])
+        ret = [e for e in es if e['event'] == 'Return']
+        if not ret:
+            raise Infra('engine scenario %s did not return' % s['id'])
+        scr, outs = allowed[s['_key']]
+        real = _norm_real_out(ret[0])
+        if real not in {_norm_spec_out(scr, o) for o in outs}:
+            drift.append(s['id'])
+            if len(ctx.notes) < 5:
+                ctx.notes.append('refinement: %s real=%r allowed=%r' % (s['id'], real, sorted({_norm_spec_out(scr, o) for o in outs})[:3]))
+        else:
+            ctx.validated += 1
+        if any(e['event'] == 'Got' and e['err'] == '' for e in es):
+            ctx.nontrivial.add(s['_key'])
+    if len(ctx.samples) < 3 and scen:
+        s0 = scen[len(scen) // 2]
+        ctx.samples.append({'scenario': {k: v for k, v in s0.items() if k != '_key'}, 'allowed_outputs': allowed[s0['_key']][1][:2],
+                            'real_events': [{k: v for k, v in e.items() if k not in ('gsample',)} for e in evs.get(s0['id'], [])][:25]})
+    viol = vt.observe(ctx, traces, obs_props)
+    ctx.extra['spec_drift'] = len(drift)
+    vt.confirm_and_report(ctx, {k: {kk: vv for kk, vv in v.items() if kk != '_key'} for k, v in by_id.items()}, viol, obs_props)
+
 # ---------------------------------------------------------------------------------------------
 def check_C01(ctx):
     vt.tlc_design(ctx, 'MatcherMC', label='matchers: C01/C02/C04 design invariants over the perturbation lattice')
@@ -75,8 +184,13 @@ def check_C01(ctx):
 def ctx_rule(ctx):
     return ctx.extra.get('rule', '')
 
+def check_C07(ctx):
+    engine_family(ctx, 'C07', 'EngineParallelMC', 'EngineParallelMC.cfg', 'parallel', ['C07'])
+    vt.write_evidence(ctx, 'model_checking', ctx_rule(ctx), exhaustive=True)
+
 CHECKS = {
     'C01': check_C01,
+    'C07': check_C07,
 }
 
 def replay(ctx, path):
